@@ -12,7 +12,7 @@ from ..model import classify
 from . import common as cm
 
 L_FLOOR = 300       # |L| on the pinned tree: 482
-SITE_FLOOR = 40     # sites on the pinned tree: 53
+SITE_FLOOR = 30     # sites on the repaired tree: 39
 
 # ---- T2: audited sites.  key -> (expect-regex on the site's expression text, reason)
 # Keys carry no line numbers: kind|function|api|ordinal.
@@ -29,8 +29,8 @@ T2 = {
         (r"split_at.*RangeFrom\{start: 1\}", "`rest` starts at the '\"' found by find; '\"' is one byte"),
     "overflow|%sparse_unsigned|Sub|0" % DE:
         (r"48\)$", "ch matched '0'..='9' so ch as u8 >= b'0'"),
-    "overflow|%sparse_unsigned|Sub|1" % DE:
-        (r"48\)$", "ch matched '0'..='9' so ch as u8 >= b'0'"),
+    "overflow|%sparse_unsigned::{closure#0}|Sub|0" % DE:
+        (r"48\)$", "ch matched '0'..='9' so ch as u8 >= b'0' (closure of the checked accumulation)"),
     "index|%sparse_unsigned|str::index|0" % DE:
         (r"RangeFrom\{start: 1\}", "the next char matched '0'..='9': one ASCII byte"),
     "slice-api|%suntil_delim|str::split_at|0" % DE:
@@ -73,6 +73,16 @@ T2 = {
         (r"first\(self\.0\)", "VoiceSet is non-empty by construction (C19-R1: only VoiceSet::new builds it, after first().ok_or(EmptyVoice))"),
     "index|model::voice_set::VoiceSet::new|Vec::index|0":
         (r"RangeFrom\{start: 1\}", "reached only after voices.first() returned Some, so len >= 1 and [1..] is in range"),
+    "alloc|engine::Condition::load_model|slice::repeat|0":
+        (r"num_streams", "num_streams == number of listed (and fully parsed) streams: validated by parse_htsvoice (rule C18-R4), so the size is bounded by data present in the file"),
+    "alloc|engine::Condition::load_model|slice::repeat|1":
+        (r"num_streams", "as above (C18-R4)"),
+    "alloc|model::interporation_weight::InterporationWeight::new|from_elem|0":
+        (r"nstream\)$", "nstream = metadata.num_streams, validated against the listed streams (C18-R4)"),
+    "alloc|model::interporation_weight::InterporationWeight::new|from_elem|1":
+        (r"nstream\)$", "nstream = metadata.num_streams, validated against the listed streams (C18-R4)"),
+    "index|model::voice_set::VoiceSet::stream_metadata|Vec::index|0":
+        (r"stream_models, stream_index\)", "in the loader this is stream 0 of a voice with >= 1 stream (C18-R4: empty STREAM_TYPE is rejected; one StreamModels per listed stream)"),
     "alloc|model::interporation_weight::Weights::average|from_elem|0":
         (r"nvoices\)$", "nvoices is the number of voices the caller passed (in-memory list), not a file value"),
 }
@@ -158,6 +168,7 @@ def run(ctx):
     ctx.rule("C18-R1", "every panic-capable construct in L is T1 (mechanical guard) or T2 (audited entry whose shape check still matches)")
     ctx.rule("C18-R2", "every explicit allocation size in L is bounded by in-memory data, not by a number read from the file")
     ctx.rule("C18-R3", "every external callee in L is modelled (panic-capable APIs are enumerated as sites)")
+    ctx.rule("C18-R4", "declared stream count is validated: parse_htsvoice returns Ok only if STREAM_TYPE is non-empty and NUM_STREAMS equals the number of listed streams; one StreamModels is built per listed stream")
     ctx.rule("controls", "the enumerator flags every control construct in fixtures/controls::panics and discharges those in ::guarded")
 
     # ---- controls
@@ -239,6 +250,10 @@ def run(ctx):
                 if k not in used_t2:
                     ctx.note("T2 entry not matched by any site (code changed or fixed): " + k)
 
+        # R4: the validation the allocation/index audits rely on
+        if config == "default":
+            r4(ctx, p)
+
         # R3: external callees modelled
         bad = 0
         n = 0
@@ -267,3 +282,48 @@ def run(ctx):
             "holds (T2), or reported. Decides the no-panic and no-header-sized-allocation clauses for every byte sequence; "
             "does not decide termination.")
     return expl, ["rustc MIR", "PANIC_API table (jbv/ledger.py)", "T2 audited table (jbv/props/c18.py)", "nom/serde/std models"]
+
+
+def r4(ctx, p):
+    from .. import paths
+    b = cm.body_or_fail(ctx, p, "C18-R4", "model::parser::parse_htsvoice")
+    if b is None:
+        return
+    eb = ExprBuilder(b)
+    oks = [(bb, e) for bb, e, item in paths.return_exprs(b, eb) if paths.is_ok(e)]
+    ctx.anchor("C18-R4", "parse_htsvoice Ok return", len(oks), 1, b.loc())
+    for bb, e in oks:
+        nonempty = counted = False
+        for g in paths.guards(b, bb, eb):
+            if g[0] not in ("true", "false"):
+                continue
+            pos, c = paths.bool_atoms(g)
+            s = show(c)
+            if c[0] == "call" and c[1].endswith("is_empty") and "stream_type" in s and not pos:
+                nonempty = True
+            if c[0] == "bin" and "num_streams" in s and "len(" in s and "stream_type" in s:
+                if (c[1] == "Ne" and not pos) or (c[1] == "Eq" and pos):
+                    counted = True
+                    # with the count equal and > 0 the list is non-empty as well
+            if c[0] == "bin" and "len(" in s and "stream_type" in s and c[3][0] == "c" and ((c[1] in ("Gt", "Ne") and c[3][1] == 0 and pos) or (c[1] == "Eq" and c[3][1] == 0 and not pos)):
+                nonempty = True
+        if nonempty and counted:
+            ctx.ok("C18-R4", "Ok(Voice) is dominated by `!stream_type.is_empty()` and `num_streams == stream_type.len()`", b.loc())
+        else:
+            ctx.fail("C18-R4", b.path, "stream count validation", "a voice can be returned whose declared NUM_STREAMS is not backed by listed streams (non-empty=%s, count-equal=%s): the per-stream allocations in load_model are then sized by an unchecked header number" % (nonempty, counted), b.loc())
+    pds = p.body("model::parser::parse_data_section")
+    if pds is not None:
+        eb2 = ExprBuilder(pds)
+        txt = " ".join(show(eb2.call(t)) for bb, t in pds.calls())
+        if "global.stream_type" in txt and "Iterator::map(" in txt and "collect" in txt and not any(k in txt for k in ("::skip(", "::take(", "::filter(", "::step_by(")):
+            ctx.ok("C18-R4", "parse_data_section builds one StreamModels per entry of global.stream_type", pds.loc())
+        else:
+            ctx.fail("C18-R4", pds.path, "stream list", "stream models are not built one per listed stream", pds.loc())
+    lm = p.body("engine::Condition::load_model")
+    if lm is not None:
+        eb3 = ExprBuilder(lm)
+        names = {d.get("name"): l for l, d in enumerate(lm.locals) if d.get("name")}
+        if "nstream" in names and show(eb3.local(names["nstream"])).endswith("global_metadata(voices).num_streams"):
+            ctx.ok("C18-R4", "load_model sizes its per-stream vectors with metadata.num_streams", lm.loc())
+        else:
+            ctx.fail("C18-R4", lm.path, "nstream", "nstream is not metadata.num_streams", lm.loc())
